@@ -42,9 +42,10 @@ impl Corruptor {
 impl Policy for Corruptor {
     fn decide(&mut self, rec: &TapSend) -> Vec<Fate> {
         let mut fates = Vec::new();
-        let Some(dst) = net::addr_node(&rec.dst) else {
-            return vec![Fate::deliver(self.latency_us)];
-        };
+        // (multicast: no single destination node; only byte-level forgeries apply)
+        let dst_opt = net::addr_node(&rec.dst);
+        let multicast = dst_opt.is_none();
+        let dst = dst_opt.unwrap_or(usize::MAX);
         if tape::chance(self.drop_permille) {
             self.fire("drop");
         } else {
@@ -64,12 +65,26 @@ impl Policy for Corruptor {
             } else {
                 Some(self.seen[tape::choose(self.seen.len() as u32) as usize].clone())
             };
-            match tape::choose(12) {
+            let kind = if multicast { [0, 0, 1, 2, 3, 4, 5, 6, 7, 0, 1, 2][tape::choose(12) as usize] } else { tape::choose(12) };
+            match kind {
                 0 => {
-                    // Bit flip in the unencrypted header
-                    let i = tape::choose(8.min(len as u32)) as usize;
+                    // Bit flip in the unencrypted header (including the optional source node id /
+                    // destination node or group id, when the flags say they are there)
+                    let hdr = 8 + if bytes[0] & 0x04 != 0 { 8 } else { 0 }
+                        + match bytes[0] & 0x03 {
+                            1 => 8,
+                            2 => 2,
+                            _ => 0,
+                        };
+                    let hdr = hdr.min(len);
+                    let i = if hdr > 8 && tape::chance(700) {
+                        self.fire("forge_flip_optional_header_field");
+                        8 + tape::choose((hdr - 8) as u32) as usize
+                    } else {
+                        self.fire("forge_flip_plain_header");
+                        tape::choose(8.min(len as u32)) as usize
+                    };
                     bytes[i] ^= 1 << tape::choose(8);
-                    self.fire("forge_flip_plain_header");
                 }
                 1 => {
                     // Bit flip in the encrypted protocol header / payload
@@ -157,7 +172,9 @@ impl Policy for Corruptor {
                 }
                 _ => match &other {
                     // A datagram of another session / direction delivered here
-                    Some((osrc, odst, o)) if !(*osrc == rec.src && *odst == dst) => {
+                    // (a group datagram is authentic for every member, wherever it is delivered:
+                    // only unicast datagrams are foreign elsewhere)
+                    Some((osrc, odst, o)) if !(*osrc == rec.src && *odst == dst) && *odst != usize::MAX => {
                         bytes = o.clone();
                         self.fire("forge_foreign_datagram");
                     }
@@ -267,6 +284,7 @@ pub fn gen_cfg(seed: u64, knobs: &C03Knobs) -> MrpCfg {
             start_delay_ms: tape::biased(8, 400) * 23,
             script,
             final_ack: tape::biased(2, 500) == 1,
+            group: false,
         };
         let lists = &mut workloads[node];
         if !lists.is_empty() && tape::biased(2, 300) == 1 {
@@ -274,6 +292,26 @@ pub fn gen_cfg(seed: u64, knobs: &C03Knobs) -> MrpCfg {
             lists[k].push(wl);
         } else {
             lists.push(vec![wl]);
+        }
+    }
+    // Group data messages (source node id and destination group id in the header)
+    let with_group = tape::biased(2, 350) == 1;
+    let mut group_fabric = None;
+    if with_group {
+        group_fabric = make_group_fabric(seed, n_nodes, 0x0101 + tape::choose(3) as u16);
+        if group_fabric.is_some() {
+            for _ in 0..(1 + tape::choose(3)) {
+                let node = tape::choose(n_nodes as u32) as usize;
+                let id = 100 + workloads.iter().map(|l| l.iter().map(|x| x.len()).sum::<usize>()).sum::<usize>() as u16;
+                workloads[node].push(vec![Workload {
+                    id,
+                    planted: 0,
+                    start_delay_ms: tape::biased(8, 400) * 31,
+                    script: vec![Step(Step::UNRELIABLE | ((tape::biased(6, 500) as u8) << Step::LEN_SHIFT))],
+                    final_ack: false,
+                    group: true,
+                }]);
+            }
         }
     }
     let sched = if knobs.sched {
@@ -312,6 +350,7 @@ pub fn gen_cfg(seed: u64, knobs: &C03Knobs) -> MrpCfg {
         limit_us: 120 * SEC,
         cancels: Vec::new(),
         settle: false,
+        group_fabric,
     }
 }
 
@@ -395,6 +434,12 @@ pub fn check_c03(run: &MrpRun, out: &mut Outcome) {
             sent.insert((e.node, e.wl, *seq, e.initiator), *hash);
         }
     }
+    let group_wls: BTreeSet<u16> = run
+        .cfg
+        .workloads
+        .iter()
+        .flat_map(|lists| lists.iter().flat_map(|l| l.iter().filter(|w| w.group).map(|w| w.id)))
+        .collect();
     let wl_nodes: BTreeMap<u16, (usize, usize)> = run
         .cfg
         .workloads
@@ -418,8 +463,13 @@ pub fn check_c03(run: &MrpRun, out: &mut Outcome) {
                     continue;
                 };
                 // The receiver is one end of the workload's session, the sender the other end
+                let is_group = group_wls.contains(payload_wl);
+                if is_group {
+                    out.count("group_messages_received", 1);
+                }
                 let sender = if e.initiator { *resp } else { *ini };
-                let receiver = if e.initiator { *ini } else { *resp };
+                // (a group message reaches every other node)
+                let receiver = if is_group && e.node != *ini { e.node } else if e.initiator { *ini } else { *resp };
                 let genuine = sent.get(&(sender, *payload_wl, *seq, !e.initiator)) == Some(hash);
                 if e.node != receiver || !genuine || (e.wl != 0xffff && e.wl != *payload_wl) {
                     out.violate(
@@ -493,7 +543,11 @@ pub fn check_c03(run: &MrpRun, out: &mut Outcome) {
                 } else {
                     continue;
                 };
-                if s.local_sess_id == sid && !s.reserved && (s.enc_key != *enc || s.dec_key != *dec) {
+                let unicast = matches!(
+                    s.mode,
+                    rs_matter::transport::session::SessionMode::Case { .. } | rs_matter::transport::session::SessionMode::Pase { .. }
+                );
+                if unicast && s.local_sess_id == sid && !s.reserved && (s.enc_key != *enc || s.dec_key != *dec) {
                     out.violate("session-keys-changed", format!("node {n} session {sid}: keys differ from the established ones"));
                 }
             }
